@@ -15,6 +15,7 @@
 -/
 import EasyMl.Lemmas.ViewMapping
 import EasyMl.Lemmas.ViewInjective
+import EasyMl.Lemmas.ViewWrite
 
 namespace EasyMl.C02
 open EasyMl EasyMl.Spec EasyMl.View
@@ -69,7 +70,58 @@ theorem view_get_injective (v : View ν α) (h : v.WF) (hn : v.leafIds.Nodup) (a
   obtain ⟨c', hc', hm⟩ := (View.resolves v h).1 a ha
   rw [hca] at hc'
   simp only [Option.some.injEq] at hc'
-  rw [hc']; exact hm
+  rw [hc']; exact leafIds_of_mem hm.choose_spec.1
+
+/-- **Unchecked access.**  On every in-bounds index tuple the unchecked getters return the same
+    cell as the checked ones; in particular none of the intermediate `unwrap()`s, unchecked
+    additions / subtractions, `panic!` arms or `get_unchecked` calls of the unchecked path can
+    fail there (clause 1 of the `TensorRef` contract). -/
+theorem view_unchecked_eq_checked (v : View ν α) (h : v.WF) (idx : List Nat)
+    (hin : inBounds (lens v.shape) idx = true) :
+    ∃ c, v.getUnchecked idx = .ok c ∧ v.get idx = .ok (some c) := by
+  obtain ⟨c, hc, _⟩ := (View.resolves v h).1 idx hin
+  have hg := (View.correct v h).1
+  have la := inBounds_length hin
+  simp only [lens_length] at la
+  refine ⟨c, View.uncheckedOK v h idx c hin hc, ?_⟩
+  rw [(View.correct v h).2 idx la (bounded_of_inBounds hin hg.lens_le)]
+  simp [View.specGet, hin, hc]
+
+/-- **Writes land on the designated element only.**  A write through a present index
+    (`*view.get_reference_mut(idx)? = x`) leaves the view's shape and its whole index mapping
+    unchanged, changes exactly the designated element of the designated leaf, reads back as `x`
+    at that index and as the old value at every other in-bounds index; a write through an absent
+    index changes nothing.  (Leaves are distinct containers: always the case for a `TensorMut`.) -/
+theorem view_write_frame (v : View ν α) (h : v.WF) (hn : v.leafIds.Nodup) (idx : List Nat)
+    (hl : idx.length = v.shape.length) (hb : ∀ i ∈ idx, i ≤ usizeMax) (x : α) :
+    (inBounds (lens v.shape) idx = false → v.write idx x = .ok none) ∧
+    (inBounds (lens v.shape) idx = true →
+      ∃ c v', v.get idx = .ok (some c) ∧ v.write idx x = .ok (some v') ∧
+        v'.shape = v.shape ∧ (∀ i, v'.get i = v.get i) ∧
+        v'.leaves = v.leaves.map (updLeaf c x) ∧
+        v'.read idx = .ok (some x) ∧
+        ∀ idx', inBounds (lens v.shape) idx' = true → idx' ≠ idx → v'.read idx' = v.read idx') := by
+  have hget := (View.correct v h).2 idx hl hb
+  have hg := (View.correct v h).1
+  constructor
+  · intro hout
+    simp [View.write, hget, View.specGet, hout]
+  · intro hin
+    obtain ⟨c, hc, _, data, hm, hlt⟩ := View.specCell_valid v h idx hin
+    have hgc : v.get idx = .ok (some c) := by rw [hget]; simp [View.specGet, hin, hc]
+    have hss := View.sameStructure c x v
+    refine ⟨c, v.setCell c x, hgc, by simp [View.write, hgc], hss.1, hss.2.1, hss.2.2, ?_, ?_⟩
+    · simp [View.read, hss.2.1, hgc, lookup_setCell v hn c x hm hlt]
+    · intro idx' hin' hne
+      have la := inBounds_length hin'
+      simp only [lens_length] at la
+      have hget' := (View.correct v h).2 idx' la (bounded_of_inBounds hin' hg.lens_le)
+      obtain ⟨c', hc', _⟩ := View.specCell_valid v h idx' hin'
+      have hgc' : v.get idx' = .ok (some c') := by rw [hget']; simp [View.specGet, hin', hc']
+      have hcc : c' ≠ c := by
+        intro he
+        exact hne ((View.resolves v h).2 hn idx' idx hin' hin (by rw [hc', hc, he]))
+      simp [View.read, hss.2.1, hgc', lookup_setCell v hn c x hm hlt, hcc]
 
 /-- **The constructors establish the invariant.**  Every validation of the model
     (`Tensor::from`, `TensorRefMatrix::with_names`, `TensorRange/TensorMask::from`, `from_all`,
